@@ -43,7 +43,11 @@ func selftest(ids []string) int {
 				bad++
 				continue
 			}
-			engine.GlobalOverlay = map[string][]byte{path: []byte(strings.Replace(string(src), m.Find, m.Replace, 1))}
+			mutated := strings.Replace(string(src), m.Find, m.Replace, 1)
+			for _, fr := range checks.MutantMore[id+"/"+m.Name] {
+				mutated = strings.ReplaceAll(mutated, fr[0], fr[1])
+			}
+			engine.GlobalOverlay = map[string][]byte{path: []byte(mutated)}
 			c := engine.NewCtx(id, "quick")
 			c.Quiet = true
 			func() {
